@@ -285,12 +285,36 @@ func (g *Global) modsetOfFunc(f *ssa.Function) map[string]modInfo {
 	if ms, ok := g.modsets[f]; ok {
 		return ms
 	}
-	if g.modBusy[f] {
-		g.busyHits++
-		return nil
+	if g.modDepth > 0 {
+		return g.computeMods(f)
 	}
-	g.modBusy[f] = true
-	hits0 := g.busyHits
+	// fixpoint driver for (mutually) recursive functions: every function is analysed once per round against the
+	// provisional sets of the previous round, until nothing grows; then all provisional sets are final
+	for round := 0; round < 50; round++ {
+		g.modRoundSeen = map[*ssa.Function]bool{}
+		g.modChanged = false
+		g.modDepth++
+		g.computeMods(f)
+		g.modDepth--
+		if !g.modChanged {
+			break
+		}
+	}
+	for fn, ms := range g.modProv {
+		g.modsets[fn] = ms
+	}
+	g.modProv = map[*ssa.Function]map[string]modInfo{}
+	return g.modsets[f]
+}
+
+func (g *Global) computeMods(f *ssa.Function) map[string]modInfo {
+	if g.modProv == nil {
+		g.modProv = map[*ssa.Function]map[string]modInfo{}
+	}
+	if g.modRoundSeen[f] {
+		return g.modProv[f]
+	}
+	g.modRoundSeen[f] = true
 	out := map[string]modInfo{}
 	for _, b := range f.Blocks {
 		if b == f.Recover {
@@ -309,10 +333,19 @@ func (g *Global) modsetOfFunc(f *ssa.Function) map[string]modInfo {
 			}
 		}
 	}
-	delete(g.modBusy, f)
-	if g.busyHits == hits0 {
-		// only cache results that did not cut a recursion (a cut result is incomplete for the inner functions)
-		g.modsets[f] = out
+	prev := g.modProv[f]
+	same := len(prev) == len(out)
+	if same {
+		for n, mi := range out {
+			if pm, ok := prev[n]; !ok || pm != mi {
+				same = false
+				break
+			}
+		}
+	}
+	if !same {
+		g.modChanged = true
+		g.modProv[f] = out
 	}
 	return out
 }
